@@ -29,6 +29,12 @@ def term_check(ck, run):
             nxt = n["next"].get(var)
             if nxt is None or head.ty not in ("int", None) and head.ty != "int":
                 continue
+            from ..linear import delta_lower_bound
+            lb = delta_lower_bound(nxt, head)
+            if lb is not None and lb >= 1:
+                ok = True
+                why.append(f"{var} grows by at least {lb} on every path of the body")
+                break
             st, m = D.budgeted_prove(n["facts"], binop(">", nxt, head))
             if st == "proved":
                 ok = True
